@@ -33,16 +33,17 @@ Theorem C30_final_contents : forall ch s0 ths sched, NoDup (all_items s0 ths) ->
 Proof. exact lifo_linearizable. Qed.
 Print Assumptions C30_final_contents.
 
-(* the values a thread has received are, in order, the values of its linearisation events *)
+(* the values a thread has received are, in order, the values of its linearisation events
+   (plus the one it is about to return when it sits between its linearisation point and its return) *)
 Theorem C30_results_are_abstract_results : forall ch s0 ths sched t th,
   let c := run true (init ch s0 ths) sched in
-  nth_error (thr c) t = Some th -> t_res th = lin_res t (hist c).
+  nth_error (thr c) t = Some th -> lin_res t (hist c) = pending (t_pc th) ++ t_res th.
 Proof. exact lifo_results. Qed.
 Print Assumptions C30_results_are_abstract_results.
 
 (* per thread the history is a sequence of triples invocation / linearisation point /
-   response carrying the same value (newest first), with at most one pending invocation:
-   every linearisation point lies inside its operation *)
+   response carrying the same value (newest first), below at most one operation in progress
+   (invoked, or invoked and linearised): every linearisation point lies inside its operation *)
 Theorem C30_lp_within_operation : forall ch s0 ths sched t,
   thread_hist_ok (proj t (hist (run true (init ch s0 ths) sched))).
 Proof. exact lifo_lp_within. Qed.
@@ -54,7 +55,7 @@ Theorem C30_pop_returns_top : forall ch s0 ths sched t r, NoDup (all_items s0 th
   let n := length (all_items s0 ths) in
   let c := run true (init ch s0 ths) sched in
   let c' := step true c t in
-  hist c' = fin_ev t (APop r) ++ hist c ->
+  hist c' = ELin t (APop r) :: hist c \/ hist c' = fin_ev t (APop r) ++ hist c ->
   r = hd_error (contents n c) /\ contents n c' = tl (contents n c).
 Proof. exact lifo_pop_returns_top. Qed.
 Print Assumptions C30_pop_returns_top.
@@ -64,7 +65,7 @@ Theorem C30_chain_keeps_order : forall ch s0 ths sched t xs, NoDup (all_items s0
   let n := length (all_items s0 ths) in
   let c := run true (init ch s0 ths) sched in
   let c' := step true c t in
-  hist c' = fin_ev t (APush xs) ++ hist c ->
+  hist c' = ELin t (APush xs) :: hist c ->
   contents n c' = xs ++ contents n c.
 Proof. exact lifo_chain_keeps_order. Qed.
 Print Assumptions C30_chain_keeps_order.
@@ -88,7 +89,7 @@ Print Assumptions C30_counter_bound.
    (thread 0 reads head = item 0 and its successor 1; thread 1 pops 0, pops 1, pushes 0 back;
    thread 0's CAS succeeds and installs the popped item 1) yields a history no stack has. *)
 Definition aba_ths : list (list item * list op) := [([], [OPop; OPop]); ([], [OPop; OPop; OPush 1])]%nat.
-Definition aba_sched : list nat := [0;0;1;1;1;1;1;1;1;1;0;0;0;0]%nat.
+Definition aba_sched : list nat := ([0;0] ++ repeat 1 11 ++ repeat 0 6)%nat.
 Theorem C30_without_counter_refuted : exists ch s0 ths sched, NoDup (all_items s0 ths) /\
   replay s0 (hist (run false (init ch s0 ths) sched)) = None /\
   ~ NoDup (held_all (run false (init ch s0 ths) sched)).
